@@ -242,7 +242,7 @@ func TestVerifC12MtcpClient(t *testing.T) {
 	for _, payload := range []int{0, 100, 5000, 70000} {
 		for failAt := 0; failAt <= 12; failAt++ {
 			fc := &vmConn{failAt: failAt}
-			cl := &MTCPClient{conn: fc, peer: bpv7.MustNewEndpointID("dtn://peer/"), reportChan: make(chan cla.ConvergenceStatus, 64), address: "fake"}
+			cl := &MTCPClient{conn: fc, peer: bpv7.MustNewEndpointID("dtn://peer/"), reportChan: make(chan cla.ConvergenceStatus), address: "fake"}
 			type sr struct {
 				Ok     bool `json:"ok"`
 				Broken bool `json:"broken"`
@@ -252,24 +252,24 @@ func TestVerifC12MtcpClient(t *testing.T) {
 			for i := 0; i < 3; i++ {
 				done := make(chan error, 1)
 				go func() { done <- cl.Send(vmBundle(fmt.Sprintf("c%d", i), payload)) }()
+				// the status channel is unbuffered, as in NewMTCPClient, and its reader (the cla.Manager) is busy elsewhere for a moment: the
+				// report has to wait for it
+				time.Sleep(15 * time.Millisecond)
 				var err error
-				select {
-				case err = <-done:
-				case <-time.After(10 * time.Second):
-					vhViol("mtcp/client-hang", "Send does not return on a failing connection", vhRec{"payload": payload, "fail_at": failAt})
-					vhDone()
-					return
-				}
 				gone := 0
-			drain:
+			wait:
 				for {
 					select {
 					case cs := <-cl.reportChan:
 						if cs.MessageType == cla.PeerDisappeared {
 							gone++
 						}
-					default:
-						break drain
+					case err = <-done:
+						break wait
+					case <-time.After(10 * time.Second):
+						vhViol("mtcp/client-hang", "Send does not return on a failing connection", vhRec{"payload": payload, "fail_at": failAt})
+						vhDone()
+						return
 					}
 				}
 				fc.mu.Lock()
@@ -285,7 +285,7 @@ func TestVerifC12MtcpClient(t *testing.T) {
 		// the peer closes the connection after k successful sends (nothing is written in between): the very next send has to fail
 		for cutAfter := 0; cutAfter <= 2; cutAfter++ {
 			fc := &vmConn{}
-			cl := &MTCPClient{conn: fc, peer: bpv7.MustNewEndpointID("dtn://peer/"), reportChan: make(chan cla.ConvergenceStatus, 64), address: "fake"}
+			cl := &MTCPClient{conn: fc, peer: bpv7.MustNewEndpointID("dtn://peer/"), reportChan: make(chan cla.ConvergenceStatus), address: "fake"}
 			type sr struct {
 				Ok     bool `json:"ok"`
 				Broken bool `json:"broken"`
@@ -300,24 +300,24 @@ func TestVerifC12MtcpClient(t *testing.T) {
 				}
 				done := make(chan error, 1)
 				go func() { done <- cl.Send(vmBundle(fmt.Sprintf("k%d", i), payload)) }()
+				// the status channel is unbuffered, as in NewMTCPClient, and its reader (the cla.Manager) is busy elsewhere for a moment: the
+				// report has to wait2 for it
+				time.Sleep(15 * time.Millisecond)
 				var err error
-				select {
-				case err = <-done:
-				case <-time.After(10 * time.Second):
-					vhViol("mtcp/client-hang", "Send does not return on a connection the peer has closed", vhRec{"payload": payload, "cut_after": cutAfter})
-					vhDone()
-					return
-				}
 				gone := 0
-			drain2:
+			wait2:
 				for {
 					select {
 					case cs := <-cl.reportChan:
 						if cs.MessageType == cla.PeerDisappeared {
 							gone++
 						}
-					default:
-						break drain2
+					case err = <-done:
+						break wait2
+					case <-time.After(10 * time.Second):
+						vhViol("mtcp/client-hang", "Send does not return on a connection the peer has closed", vhRec{"payload": payload, "cut_after": cutAfter})
+						vhDone()
+						return
 					}
 				}
 				sends = append(sends, sr{Ok: err == nil, Broken: i == cutAfter, Gone: gone})
